@@ -18,10 +18,15 @@ def litMeta (m : List Meta) : Bool :=
   | [(a, x), (b, _), (c, _)] => a == "operation" && x == bs "replace" && b == "orig-default" && c == "orig-value"
   | _ => false
 
+/-- the metadata of a container / list-instance diff node: none (a parent copy below the diff roots, a copy inside a created /
+deleted subtree) or the operation alone -/
+def litInner (m : List Meta) : Bool :=
+  m == [] || m == [("operation", bs "none")] || m == [("operation", bs "create")] || m == [("operation", bs "delete")]
+
 mutual
-/-- leaf / leaf-list diff nodes carry the metadata `lyd_diff_add` writes, at any depth -/
+/-- diff nodes carry the metadata `lyd_diff_add` writes, at any depth -/
 def litN : DNode → Bool
-  | .inner _ _ _ ks => litL ks
+  | .inner _ _ m ks => litInner m && litL ks
   | .term _ _ m _ => litMeta m
 def litL : List DNode → Bool
   | [] => true
@@ -35,9 +40,10 @@ theorem litL_iff_forall : ∀ (l : List DNode), litL l = true ↔ ∀ x ∈ l, l
 mutual
 theorem litN_of_plain : ∀ x, plainN x = true → litN x = true
   | .inner s f m ks, h => by
-    simp only [plainN, Bool.and_eq_true] at h
-    simp only [litN]
-    exact litL_of_plain ks h.2
+    simp only [plainN, Bool.and_eq_true, List.isEmpty_iff] at h
+    obtain ⟨rfl, h2⟩ := h
+    simp only [litN, Bool.and_eq_true]
+    exact ⟨rfl, litL_of_plain ks h2⟩
   | .term s f m v, h => by
     simp only [plainN, List.isEmpty_iff] at h
     subst h
@@ -55,8 +61,9 @@ theorem litN_setMetas_op (x : DNode) (b : Bytes) (hp : plainN x = true) (hb : b 
   cases x with
   | inner s f m ks =>
     simp only [plainN, Bool.and_eq_true] at hp
-    simp only [DNode.setMetas, litN]
-    exact litL_of_plain ks hp.2
+    simp only [DNode.setMetas, litN, Bool.and_eq_true]
+    refine ⟨?_, litL_of_plain ks hp.2⟩
+    rcases hb with rfl | rfl <;> simp [litInner]
   | term s f m v =>
     simp only [DNode.setMetas, litN, litMeta]
     rcases hb with rfl | rfl <;> simp
@@ -109,7 +116,8 @@ theorem litGoal_all (S : Schema) : ∀ (fuelD : Nat), LitGoal S fuelD
         have hwb1 := wfL_mem S bs b hwb hbm
         have hsb : b.sid = a.sid := kkey_sid S b a (partner_kkey S bs a b hnd hp)
         have hin := inner_of_sub S _ a b hwa1 hwb1 hsb hrec0 hne
-        simp only [litN]
+        simp only [litN, Bool.and_eq_true]
+        refine ⟨by rcases hm with rfl | rfl <;> simp [litInner, none_bytes_eq], ?_⟩
         rw [litL_iff_forall]
         intro x hx
         rcases List.mem_append.1 hx with hx | hx
